@@ -6,6 +6,7 @@ import (
 	"bufio"
 	"encoding/hex"
 	"fmt"
+	"math/big"
 	"os"
 	"strconv"
 	"strings"
@@ -140,4 +141,31 @@ func Main(gen func(r *Rand, n int) []string, run func(c string) string) {
 	default:
 		os.Exit(2)
 	}
+}
+
+// RatF returns the exact value of a finite float64 as "num/den".
+func RatF(f float64) string {
+	r := new(big.Rat)
+	if r.SetFloat64(f) == nil {
+		return "nan"
+	}
+	return r.String()
+}
+
+// ParseRat parses "num/den" or an integer into a float64 (exact when the value is a float64).
+func ParseRat(s string) float64 {
+	r, ok := new(big.Rat).SetString(s)
+	if !ok {
+		panic("bad rational in case: " + s)
+	}
+	f, _ := r.Float64()
+	return f
+}
+
+// B2i renders a bool as 1/0.
+func B2i(b bool) string {
+	if b {
+		return "1"
+	}
+	return "0"
 }
